@@ -118,8 +118,9 @@ func (e *env) newClient(underTest bool) *regclient.RegClient {
 		if n <= 0 {
 			n = 1
 		}
-		// the timeout is far beyond any case's run time: expiry never influences a verdict
-		conf.RegOpts = []reg.Opts{reg.WithCache(30*time.Minute, n)}
+		// the timeout is beyond any case's run time (watchdog 120 s); an expiry would only turn a cache hit into a
+		// miss, which a correct client answers identically, so it cannot create a false alarm
+		conf.RegOpts = []reg.Opts{reg.WithCache(3*time.Minute, n)}
 	}
 	return rcutil.New(e.m, conf)
 }
